@@ -121,9 +121,9 @@ Section Flush.
         destruct (im_lookup_some _ _ _ El) as [A [B C]].
         destruct (g_rows _ _ _ _ _ (sl_good _ _ _ _ L) ex pk B C) as [v [Hv _]].
         destruct (oexp (objs s ex)).
-        - destruct (load_step s0 g f GC s ex pk v L B C) as [s1 [E1 [E2 [E3 [E4 E5]]]]]; [congruence|exact Hv|].
+        - destruct (load_step s0 g f GC s ex pk v L B C) as [s1 [E1 [E2 [E3 [E4 E5]]]]]; [rewrite Hw; exact Hv|exact Hv|].
           rewrite E1 in Ha. destruct (mem ex deleted); inversion Ha; subst; [congruence|].
-          repeat split; auto. congruence.
+          split; [reflexivity|]. split; [exact E5|]. rewrite E3. exact Hw.
         - destruct (mem ex deleted); inversion Ha; subst; [congruence|auto]. }
       destruct H as [[s1 [H1 H2]]|[H1 Hn]].
       + destruct (Step Ok s1 H1) as [_ [A B]]; [discriminate|]. eapply IH; eauto.
